@@ -386,6 +386,8 @@ def small_ts(rng, kind):
     if kind == "nomut_single":
         return msprime.sim_ancestry(rng.randint(3, 5), ploidy=1, sequence_length=50, recombination_rate=0,
                                     random_seed=seed, population_size=1)
+    if kind.startswith("sitesnomut") or kind in ("rootmuts_only", "isolated_only"):
+        return sites_without_mutations(rng, kind)
     if kind == "historical":
         samples = [msprime.SampleSet(2, time=0, ploidy=1), msprime.SampleSet(2, time=0.5, ploidy=1)]
         ts = msprime.sim_ancestry(samples=samples, sequence_length=50, recombination_rate=0.02,
@@ -407,6 +409,66 @@ def small_ts(rng, kind):
     ts = msprime.sim_ancestry(4, ploidy=1, sequence_length=50, recombination_rate=0.02, random_seed=seed,
                               population_size=1)
     return msprime.sim_mutations(ts, rate=0.1, random_seed=seed)
+
+
+def sites_without_mutations(rng, kind):
+    """valid tree sequences whose SITE table is non-empty although no mutation can inform the
+    dating: no mutations at all (three ways of getting there), or mutations only above roots /
+    only on nodes that are isolated at the site"""
+    import msprime
+    import tskit
+    seed = rng.randrange(1, 2**31 - 1)
+    L = 50
+    rec = rng.choice([0.0, 0.04])
+    if kind == "sitesnomut_bare":
+        ts = msprime.sim_ancestry(rng.randint(3, 5), ploidy=1, sequence_length=L, recombination_rate=rec,
+                                  random_seed=seed, population_size=1)
+        t = ts.dump_tables()
+        for x in sorted(rng.sample(range(L), rng.randint(1, 4))):
+            t.sites.add_row(position=float(x), ancestral_state="A")
+        return t.tree_sequence()
+    if kind == "sitesnomut_cleared":
+        ts = msprime.sim_ancestry(rng.randint(3, 5), ploidy=1, sequence_length=L, recombination_rate=rec,
+                                  random_seed=seed, population_size=1)
+        ts = msprime.sim_mutations(ts, rate=0.08, random_seed=seed)
+        t = ts.dump_tables()
+        t.mutations.clear()
+        return t.tree_sequence()
+    if kind == "sitesnomut_subset":
+        # every mutation sits above one sample (a singleton); that sample is then dropped
+        for _ in range(50):
+            ts = msprime.sim_ancestry(rng.randint(4, 6), ploidy=1, sequence_length=L, recombination_rate=rec,
+                                      random_seed=rng.randrange(1, 2**31 - 1), population_size=1)
+            t = ts.dump_tables()
+            victim = int(rng.choice(list(ts.samples())))
+            for x in sorted(rng.sample(range(L), rng.randint(1, 4))):
+                sid = t.sites.add_row(position=float(x), ancestral_state="0")
+                t.mutations.add_row(site=sid, node=victim, derived_state="1")
+            full = t.tree_sequence()
+            keep = [int(u) for u in full.samples() if int(u) != victim]
+            sub = full.simplify(keep, filter_sites=False)
+            if sub.num_sites > 0 and sub.num_mutations == 0:
+                return sub
+        return sub
+    # mutations exist, but none on an edge
+    ts = msprime.sim_ancestry(rng.randint(3, 5), ploidy=1, sequence_length=L, recombination_rate=rec,
+                              random_seed=seed, population_size=1)
+    if kind == "isolated_only":
+        s_ = int(rng.choice(list(ts.samples())))
+        ts = _isolate(ts, s_, 10, 30)
+    t = ts.dump_tables()
+    for x in sorted(rng.sample(range(11, 29), rng.randint(1, 3))):
+        sid = t.sites.add_row(position=float(x), ancestral_state="0")
+        tree = ts.at(float(x))
+        if kind == "isolated_only":
+            node = s_
+        else:
+            node = int(rng.choice(list(tree.roots)))
+        t.mutations.add_row(site=sid, node=node, derived_state="1")
+    t.sort()
+    t.build_index()
+    t.compute_mutation_parents()
+    return t.tree_sequence()
 
 
 # ---------------------------------------------------------------- parameter stream
@@ -580,7 +642,8 @@ def malformed_case(rng, tspool):
         if p[k] is None and k not in acc:
             del p[k]
     kind = rng.choice(["multi", "multi", "multi", "multi", "single", "single", "nomut_multi", "nomut_single",
-                       "historical", "historical", "unary"])
+                       "historical", "historical", "unary", "sitesnomut_bare", "sitesnomut_cleared",
+                       "sitesnomut_subset", "rootmuts_only", "isolated_only"])
     case = {"params": p, "ts_kind": kind, "ts_index": rng.randrange(len(tspool[kind]))}
     # entry point: date(), or the wrapper itself when the method is a known one
     if method in METHODS and rng.random() < 0.35:
@@ -671,7 +734,8 @@ def patho_ts(rng):
     import msprime
     import tskit
     kind = rng.choice(["tiny", "tiny", "gaps", "missing", "rootmuts", "historical", "diploid", "diploid_missing",
-                       "internal", "unary", "fewmuts", "two", "contcoord", "bigL", "manymuts", "polytomy", "lonely"])
+                       "internal", "unary", "fewmuts", "two", "contcoord", "bigL", "manymuts", "polytomy", "lonely",
+                       "sitesnomut"])
     seed = rng.randrange(1, 2**31 - 1)
     seed2 = rng.randrange(1, 2**31 - 1)
     n = rng.randint(2, 6)
@@ -705,6 +769,9 @@ def patho_ts(rng):
             keep = list(ts.samples())[: max(2, n - 1)]
             ts = ts.simplify(samples=keep, keep_unary=True)
         return ts, kind
+    if kind == "sitesnomut":
+        k2 = rng.choice(["sitesnomut_bare", "sitesnomut_cleared", "sitesnomut_subset", "rootmuts_only", "isolated_only"])
+        return sites_without_mutations(rng, k2), k2
     if kind == "lonely":
         # a stretch of genome where a single sample hangs below a unary root (the others are missing)
         n = rng.randint(2, 3)
